@@ -598,10 +598,12 @@ class CFG:
             return (0, 0)
         return (r[0], None if cyc[0] else r[1])
 
-    def weighted_path_counts(self, weights, start=0):
+    def weighted_path_counts(self, weights, start=0, end=None):
         """Like path_counts, but every block carries a (min,max) weight (max None = unbounded),
-        e.g. the summary of the function called in that block."""
+        e.g. the summary of the function called in that block. With `end`, paths start->end are
+        counted instead of paths to a return (end's own weight included; None if unreachable)."""
         memo = {}
+        exits = {end} if end is not None else set(self.live_rets)
         onstack = set()
         unb = [False]
         wsites = {b for b, w in weights.items() if w[1] is None or w[1] > 0}
@@ -617,9 +619,9 @@ class CFG:
                 unb[0] = True
             here = (w[0], w[1] if w[1] is not None else w[0])
             res = None
-            if x in self.live_rets:
+            if x in exits:
                 res = here
-            for s, _ in self.succ[x]:
+            for s, _ in (self.succ[x] if not (end is not None and x == end) else []):
                 if s in onstack:
                     if self._cycle_has_site(s, x, wsites):
                         unb[0] = True
@@ -634,7 +636,7 @@ class CFG:
             return res
         r = go(start)
         if r is None:
-            return (0, 0)
+            return None if end is not None else (0, 0)
         return (r[0], None if unb[0] else r[1])
 
     def _cycle_has_site(self, head, tail, sites):
